@@ -47,7 +47,7 @@ def run_native_test(src, BUILD, crate, wfile, unit, names, timeout=3600):
     os.makedirs(nsrc, exist_ok=True)
     # --checksum: only files whose CONTENT differs are touched, so cargo rebuilds exactly what changed
     subprocess.run(['rsync', '-a', '--checksum', '--delete', '--exclude', '/target', '--exclude', '*/tests/verif_witness_*',
-                    src + '/', nsrc + '/'], check=True, stderr=subprocess.DEVNULL)
+                    src + '/', nsrc + '/'], check=True, stderr=subprocess.DEVNULL, stdout=subprocess.DEVNULL)
     # harness lines appended for Kani must not leak into native builds
     tdir = os.path.join(nsrc, crate, 'tests')
     os.makedirs(tdir, exist_ok=True)
